@@ -148,6 +148,24 @@ def rule_json(ctx):
             continue
         # values.tolist() does not record the shape of an array with an empty dimension ((0, 3) and (0,) both give []): the reader has to use 'shape'
         uses_shape = any(popped(x, 'shape') for x in T.subterms(a0)) or any(popped(x, 'shape') for e in p.calls('reshape') for x in T.subterms(e.a))
+        # ... for every shape: the reshape may be conditioned on values / shape being present, not on what the shape contains
+        cond_bad = None
+        for e in p.calls('reshape'):
+            for a, pol in e.guards:
+                if any(popped(x, 'shape') for x in T.subterms(a)) and not (a[0] == 'cmp' and a[1] == 'is' and a[3] == T.CONST_NONE):
+                    cond_bad = a
+        if cond_bad is None:
+            evf = run(ctx, r, mode='fork')
+            for q in evf.paths:
+                for e in q.calls('reshape'):
+                    for a, pol in e.guards:
+                        if any(popped(x, 'shape') for x in T.subterms(a)) and not (a[0] == 'cmp' and a[1] == 'is' and a[3] == T.CONST_NONE) and a[0] not in ('call',) \
+                                or (a[0] == 'cmp' and any(x[0] == 'sub' and any(popped(y, 'shape') for y in T.subterms(x[1])) for x in T.subterms(a))):
+                            cond_bad = a
+        if cond_bad is not None:
+            ctx.violated('R1', r, "'shape' applied only for some shapes", "the stored shape is re-applied only under the condition %s: an array with an empty dimension elsewhere "
+                         "(shape (2, 0, 3): tolist() gives [[], []]) is still rebuilt from the nested lists alone" % T.show(cond_bad)[:80], node=p.node)
+            continue
         if 'shape' in written and not uses_shape:
             ctx.violated('R1', r, "'shape' ignored", "to_jsondict writes 'shape' but from_jsondict rebuilds the array from the nested 'values' lists alone: for an array with an empty "
                          "dimension that is not the last one (shape (0, 3)) tolist() is [] and the read-back fails / has another shape", node=p.node)
